@@ -208,10 +208,17 @@ func runC03(r *mon.Run, replay string) {
 	r.Rule("generated histories (forks, reorgs, rolled-back reorgs) run on a node whose store commits after every individual block apply/revert (hook H1: every-block / PRNG half) or only at its natural commit points; the shadow KV snapshots the durable image at every Flush the backend receives, tagged with the store's tip at that moment; EVERY snapshot is reopened (NewDBStore + NewManager on a fresh backend) and must reopen without error to exactly that tip, pass the C01 chain audit and the element/proof audit against the pure ledger of that tip, and hold supplements for its best chain; for snapshots inside reorgs (up to 8 per history) plus 4 PRNG ones the whole schedule is re-submitted and, where the final tip is forced (sufficiently heavier than every other tip), final tip and complete served view must equal the uninterrupted run's; a snapshot is distinct by (stream, index, inside-reorg)")
 	r.Assume("the backend's own commit is atomic (MemDB here; bbolt trusted)")
 	if st, ok := replayStream(replay); ok {
+		if st >= 39000 {
+			runC03Kill(r, st)
+			return
+		}
 		runC03History(r, st)
 		return
 	}
 	parallel(r.Pick(150, 2000), func(i int) { runC03History(r, uint64(30000+i)) })
+	// real-process variant: SIGKILL of a child running on a Bolt file
+	parallel(r.Pick(12, 300), func(i int) { runC03Kill(r, uint64(39000+i)) })
+	r.Floor("kill_runs_audited", int64(r.Pick(8, 200)))
 	r.Floor("snapshots_reopened", 2000)
 	r.Floor("snapshots_inside_reorg", 500)
 	r.Floor("catchup_runs", 300)
